@@ -75,7 +75,15 @@ def _slots_finder(clazz, fields_set):
     except (AttributeError, KeyError):
         pass
     else:
+        if isinstance(slots, utils.STRING_TYPES):
+            # A single slot can be declared with its name only
+            slots = (slots,)
+
         for slot in slots:
+            if slot in ("__dict__", "__weakref__"):
+                # Not fields: they only re-enable the standard features
+                continue
+
             if slot.startswith("__") and not slot.endswith("__"):
                 # Private slot: its real name is mangled with the class name
                 slot = "_{0}{1}".format(clazz.__name__.lstrip("_"), slot)
